@@ -20,6 +20,19 @@ func init() {
 		seqio.Fasta{Desc: string(unhx(a[0])), Data: unhx(a[1])}.WriteTo(&b)
 		return "ok " + hx(b.Bytes())
 	}
+	// FastaWriter.WriteSeq on a GenBank record: GenBankFields.String gives the description
+	ops["gb_to_fasta"] = func(a []string) string {
+		fields := seqio.GenBankFields{LocusName: "X", Molecule: gts.DNA, Topology: gts.Linear,
+			Version: string(unhx(a[0])), Definition: string(unhx(a[4]))}
+		if a[1] == "1" {
+			fields.Region = gts.Segment{atoi(a[2]), atoi(a[3])}
+		}
+		var b bytes.Buffer
+		if _, err := seqio.NewWriter(&b, seqio.FastaFile).WriteSeq(gts.New(fields, nil, unhx(a[5]))); err != nil {
+			return "error"
+		}
+		return "ok " + hx(b.Bytes())
+	}
 	ops["fasta_scan"] = func(a []string) string {
 		recs, clean := scanFasta(unhx(a[0]))
 		parts := make([]string, len(recs))
@@ -163,6 +176,20 @@ func runC17(o *Out) {
 // records built through the API whose DEFINITION runs over several lines, with
 // and without a VERSION, whole and sliced
 func runGbToFastaBuilt(o *Out) {
+	// GenBankFields.String for every shape of region, version and definition
+	vers := []string{"", "V0001.1", "NC_001422.1", "a b", "x:1-2"}
+	defs := []string{"", "one line", "first line\nsecond line", "a\n\nb\n", "100% of %d", " lead"}
+	nums := []int{0, 1, 9, 10, 99, 100, 999, 1000, 12345, 99999, 100000, 1234567}
+	for k := 0; k < 150; k++ {
+		has := "1"
+		if k%5 == 0 {
+			has = "0"
+		}
+		h, t := nums[o.Rng.Intn(len(nums))], nums[o.Rng.Intn(len(nums))]
+		n := []int{0, 1, 69, 70, 71, 140, o.Rng.Intn(200)}[o.Rng.Intn(7)]
+		o.Run("gb-to-fasta", true, "gb_to_fasta", hx([]byte(vers[k%len(vers)])), has, itoa(h), itoa(t),
+			hx([]byte(defs[o.Rng.Intn(len(defs))])), hx(residues("acgtnRYKM-*", n, k)))
+	}
 	for i, def := range []string{"one line", "first line\nsecond line", "three\nlines of\ndefinition", ""} {
 		for _, ver := range []string{"V0001.1", ""} {
 			fields := seqio.GenBankFields{LocusName: "BUILT", Molecule: gts.DNA, Topology: gts.Linear, Division: "SYN",
@@ -175,6 +202,18 @@ func runGbToFastaBuilt(o *Out) {
 }
 
 func checkGbToFasta(o *Out, name string, seq gts.Sequence) {
+	if info, ok := seq.Info().(seqio.GenBankFields); ok {
+		// the model's gb_to_fasta against the real writer, on this record's fields
+		has, h, t := "0", 0, 0
+		if seg, ok := info.Region.(gts.Segment); ok {
+			has, h, t = "1", seg[0], seg[1]
+		}
+		data := seq.Bytes()
+		if len(data) > 400 {
+			data = data[:400]
+		}
+		o.Run("gb-to-fasta", true, "gb_to_fasta", hx([]byte(info.Version)), has, itoa(h), itoa(t), hx([]byte(info.Definition)), hx(data))
+	}
 	var b bytes.Buffer
 	if _, err := seqio.NewWriter(&b, seqio.FastaFile).WriteSeq(seq); err != nil {
 		o.Violate("genbank-to-fasta-write", name, err.Error())
